@@ -357,6 +357,7 @@ impl<'a> DpRun<'a> {
                 log: log.clone(),
                 min_tsdr_bits: cfg.min_tsdr as u64,
                 max_tsdr_bits: (cfg.min_tsdr as u64 + 30).min(cfg.slot_bits as u64 - 20),
+                late_spread_bits: 100,
                 slot_bits: cfg.slot_bits as u64,
             }));
             slaves.push(SlaveHandle { core, script, random_pct, log });
@@ -998,13 +999,15 @@ impl<'a> DpRun<'a> {
                     let pos_last = self.slot_order.iter().position(|x| *x == last).unwrap();
                     let pos_i = self.slot_order.iter().position(|x| *x == i).unwrap();
                     if self.mon[i].requests_this_cycle > 0 {
-                        self.viol(rep, "C14", "C14/turn/second-turn-in-one-cycle".into(), format!("#{} got a second turn before 'cycle completed' was reported (requests this cycle to: {:?})", da, self.cycle_addr_seq));
+                        self.viol(rep, "C14", "C14/turn/second-turn-in-one-cycle".into(), format!("#{} got a second turn before 'cycle completed' was reported (last requests of this cycle to: {:?})", da, &self.cycle_addr_seq[self.cycle_addr_seq.len().saturating_sub(16)..]));
                     } else if pos_i <= pos_last && !self.cycle_addr_seq.is_empty() {
-                        self.viol(rep, "C14", "C14/turn/out-of-slot-order".into(), format!("request to #{} after #{} in the same cycle (slot order violated; cycle so far {:?})", da, self.cfg.periphs[last].addr, self.cycle_addr_seq));
+                        self.viol(rep, "C14", "C14/turn/out-of-slot-order".into(), format!("request to #{} after #{} in the same cycle (slot order violated; cycle so far (last 16) {:?})", da, self.cfg.periphs[last].addr, &self.cycle_addr_seq[self.cycle_addr_seq.len().saturating_sub(16)..]));
                     }
                 }
                 self.mon[i].requests_this_cycle += 1;
-                self.cycle_addr_seq.push(*da);
+                if self.cycle_addr_seq.len() < 4096 {
+                    self.cycle_addr_seq.push(*da);
+                }
                 rep.count("C14_turns_checked");
             }
             self.last_dp_req_idx = Some(i);
